@@ -126,7 +126,7 @@ pub fn record(rec: &mut Recorder, seed: u64, thorough: bool) {
     let widths: Vec<usize> = if thorough { (1..=40).collect() } else { vec![1, 2, 3, 4, 5, 6, 8, 10, 12, 15, 20, 27, 33, 40] };
     let mut kind = 0;
     for &m in &widths {
-        for _ in 0..(if thorough { 4 } else { 2 }) {
+        for _ in 0..(if thorough { 6 } else { 3 }) {
             kind += 1;
             let cells = gen_pssm::<Dna>(&mut r, m, kind);
             let l = match kind % 3 { 0 => m, 1 => m + r.gen_range(1..40), _ => r.gen_range(m..m + 120) };
